@@ -228,6 +228,15 @@ def run(unit, features=(), repo=REPO, seed=None, rlimit=40, extra_args=(), tag="
         spans = dj.get("spans", [])
         for ch in dj.get("children", []):
             spans = spans + ch.get("spans", [])
+        # a span inside a macro definition (e.g. the unit's `vassert_eq!`): the place of interest is the call site
+        def _callsite(sp):
+            seen = 0
+            while sp.get("expansion") and sp["expansion"].get("span") and seen < 8:
+                inner = sp["expansion"]["span"]
+                inner = dict(inner, is_primary=sp.get("is_primary"), label=sp.get("label"))
+                sp, seen = inner, seen + 1
+            return sp
+        spans = [_callsite(sp) for sp in spans]
         prim = [s for s in spans if s.get("is_primary")]
         if prim:
             d.gen_line = prim[0]["line_start"]
